@@ -163,7 +163,7 @@ def _worker(args):
                 st["exhaustive_cases"] += 1
                 if len(st["harness_errors"]) > 3:
                     break
-        if n_examples > 0 and hasattr(prop, "strategy") and _atheris_job(pid, tier, idx):
+        if n_examples > 0 and hasattr(prop, "strategy") and _atheris_job(pid, tier, idx, nworkers):
             _run_atheris(pid, tier, seed, idx, n_examples, st)
         elif n_examples > 0 and hasattr(prop, "strategy"):
             import hypothesis
@@ -188,17 +188,17 @@ def _worker(args):
     return st
 
 
-ATHERIS_JOBS = 12          # of the 64 jobs of a thorough run, for the properties in atheris_job.TARGETS
+ATHERIS_SHARE = (3, 16)    # 12 of the 64 jobs of a thorough run, for the properties in atheris_job.TARGETS
 
 
-def _atheris_job(pid, tier, idx):
+def _atheris_job(pid, tier, idx, njobs):
     from .atheris_job import TARGETS
 
     if pid not in TARGETS or os.environ.get("VF_ATHERIS", "1") == "0":
         return False
     if tier != "thorough" and os.environ.get("VF_ATHERIS") != "force":
         return False
-    if idx >= ATHERIS_JOBS:
+    if idx >= max(1, njobs * ATHERIS_SHARE[0] // ATHERIS_SHARE[1]):
         return False
     try:
         sys.path.index(os.path.join(VERIF, ".deps"))
